@@ -492,5 +492,24 @@ def drive(ctx, mon, tier, only_case=None):
             inplace_twin(ctx, mon, rng, ex, hg)
         for _ in range(8):
             alias_probe(ctx, mon, rng, ex, hg)
+        idx = [i for i, v in enumerate(ex.pool) if is_ansi(L, v) and len(v.base_str) <= 12][-5:]
+        if idx:
+            # a join of many operands (9..13), the same pool values several times among them
+            n = rng.randint(9, 13)
+            a = [({'$': rng.choice(idx)} if rng.random() < 0.6 else rng.choice(['', 'x', ' '])) for _ in range(n)]
+            res, exc = ex.run({'m': 'join', 'cls': rng.choice(['AnsiString', 'AnsiStr']), 'a': a})
+            if exc is None and isinstance(res, L.AnsiString):
+                with mon.quiet():
+                    snaps = [Snap(L, ex.pool[i]) for i in idx]
+                    res.apply_formatting('[95;7', 0, None, topmost=False)
+                    res += 'zz'
+                    for sn in snaps:
+                        d = sn.diff(L)
+                        ctx.ev('many-join-independent')
+                        if d:
+                            ctx.violation('source-changed-by-mutating-result', {'op': 'join of %d operands' % n, 'what': d,
+                                                                                'source_before': sn.o.describe()},
+                                          mech='aliasing:join')
+                            break
 
     run_cases(ctx, mon, CASES[tier], body, only_case=only_case)
